@@ -118,6 +118,31 @@ func txBadSig(n nonceBook, a *evmkit.Account, to common.Address, variant int) tx
 	return txDef{"bad-sig", evmkit.EncodeTx(spec, v, r, s)}
 }
 
+// Clock fixture (hand-assembled, 25 bytes of runtime): any call stores the
+// block context the EVM sees into storage, so that the state root depends on it:
+//
+//	42 6000 55            TIMESTAMP        -> slot 0
+//	43 6001 55            NUMBER           -> slot 1
+//	41 6002 55            COINBASE         -> slot 2
+//	6001 43 03 40 6003 55 BLOCKHASH(NUMBER-1) -> slot 3
+//	45 6004 55            GASLIMIT         -> slot 4
+//	00                    STOP
+const clockRuntimeHex = "42600055" + "43600155" + "41600255" + "6001430340600355" + "45600455" + "00"
+
+func clockInit() []byte {
+	rt := common.Hex2Bytes(clockRuntimeHex)
+	return append([]byte{0x60, byte(len(rt)), 0x80, 0x60, 0x0b, 0x60, 0x00, 0x39, 0x60, 0x00, 0xf3}, rt...)
+}
+
+func txCreateClock(n nonceBook, a *evmkit.Account) (txDef, common.Address) {
+	nonce := n.next(a)
+	return txDef{"create", evmkit.Create(a, nonce, clockInit())}, evmkit.CreatedAddress(a.Addr, nonce)
+}
+
+func txCallClock(n nonceBook, a *evmkit.Account, clock common.Address) txDef {
+	return txDef{"call-blockctx", evmkit.Call(a, n.next(a), clock, nil)}
+}
+
 func txGarbage() txDef { return txDef{"garbage", []byte{0xde, 0xad, 0xbe, 0xef}} }
 
 // the chains ---------------------------------------------------------------------------
@@ -135,13 +160,17 @@ func buildChain(name string) (*chainDef, error) {
 			{},
 		}
 	case name == "A":
+		b1 := []txDef{txCreate(n, a), txTransfer(n, a, c.Addr, 5), txKV(n, b, "kv-put", "k1", "v1")}
+		b2 := []txDef{txCallLog(n, a, st, 7), txCallRevert(n, a, st), txTransfer(n, b, a.Addr, 3)}
+		mk, clock := txCreateClock(n, b)
+		b2 = append(b2, mk)
 		cd.Blocks = [][]txDef{
-			{txCreate(n, a), txTransfer(n, a, c.Addr, 5), txKV(n, b, "kv-put", "k1", "v1")},
-			{txCallLog(n, a, st, 7), txCallRevert(n, a, st), txTransfer(n, b, a.Addr, 3)},
+			b1,
+			b2,
 			{},
-			{txKV(n, b, "kv-overwrite", "k1", "v2"), txBadNonce(n, a, st), txCallLog(n, a, st, 8)},
+			{txKV(n, b, "kv-overwrite", "k1", "v2"), txBadNonce(n, a, st), txCallLog(n, a, st, 8), txCallClock(n, c, clock)},
 			{txBadSig(n, b, st, 0), txGarbage(), txKV(n, a, "kv-put", "k2", "w1"), txCallPut(n, b, st, 5)},
-			{txCallLog(n, a, st, 9), txTransfer(n, a, b.Addr, 1), txCallRevert(n, c, st), txCallLog(n, a, st, 10)},
+			{txCallLog(n, a, st, 9), txTransfer(n, a, b.Addr, 1), txCallRevert(n, c, st), txCallLog(n, a, st, 10), txCallClock(n, b, clock)},
 		}
 	case name == "B":
 		cd.Blocks = [][]txDef{
@@ -156,13 +185,14 @@ func buildChain(name string) (*chainDef, error) {
 		// no KV transaction at all: here ReceiptsHash has no excuse
 		s2 := evmkit.CreatedAddress(b.Addr, 1)
 		cd.Store2 = &s2
+		mk, clock := txCreateClock(n, c)
 		cd.Blocks = [][]txDef{
-			{txCreate(n, a), txCallLog(n, a, st, 1)},
+			{txCreate(n, a), txCallLog(n, a, st, 1), mk},
 			{txTransfer(n, a, c.Addr, 5), txBadNonce(n, a, st), txCallRevert(n, b, st)},
-			{txCreate(n, b), txCallLog(n, a, s2, 4)},
+			{txCreate(n, b), txCallLog(n, a, s2, 4), txCallClock(n, b, clock)},
 			{},
 			{txBadSig(n, a, st, 0), txGarbage(), txCallLog(n, a, st, 2), txCallLog(n, a, st, 3), txCallLog(n, a, st, 4), txCallPut(n, a, st, 9), txBadSig(n, b, st, 1)},
-			{txTransfer(n, c, a.Addr, 2), txCallLog(n, b, s2, 5), txCallRevert(n, c, st)},
+			{txTransfer(n, c, a.Addr, 2), txCallLog(n, b, s2, 5), txCallRevert(n, c, st), txCallClock(n, a, clock)},
 		}
 	case name == "D":
 		// KV transactions only in the last block (control: nothing earlier in any lifetime)
